@@ -28,6 +28,7 @@ fn main() {
     let args = parse_args();
     quiet_panics();
     start_watchdog(args.tier.pick(900, 3600));
+    sweep_stale_scratch();
     match args.prop.as_str() {
         "C16" => c16(&args),
         "C18" => c18(&args),
@@ -276,6 +277,25 @@ fn fork_collect(timeout_ms: i32, child: &dyn Fn(i32)) -> (Vec<u8>, ChildEnd) {
 /// Scratch directory for one case. tmpfs when available: RocksDB's fsyncs on a fresh
 /// directory dominate the cost otherwise, and fsync is irrelevant under the process-crash
 /// model (everything write(2)n is in the page cache either way).
+/// Remove scratch directories that an earlier run left behind (a run that was killed or hit
+/// the watchdog cannot clean up; tmpfs space is memory). Only entries older than two hours
+/// are touched — longer than any run's watchdog — so concurrent runs are never disturbed.
+fn sweep_stale_scratch() {
+    for base in ["/dev/shm".to_string(), std::env::temp_dir().to_string_lossy().to_string()] {
+        if let Ok(rd) = std::fs::read_dir(&base) {
+            for e in rd.flatten() {
+                if !e.file_name().to_string_lossy().starts_with("vc_persist_") {
+                    continue;
+                }
+                let old = e.metadata().and_then(|m| m.modified()).ok().and_then(|t| t.elapsed().ok()).map(|d| d.as_secs() > 7200).unwrap_or(false);
+                if old {
+                    let _ = std::fs::remove_dir_all(e.path());
+                }
+            }
+        }
+    }
+}
+
 fn scratch_dir() -> tempfile::TempDir {
     let shm = Path::new("/dev/shm");
     if std::env::var_os("TMPDIR").is_none() && shm.is_dir() {
@@ -1807,6 +1827,8 @@ fn c18(args: &Args) {
         }
     }
     drop(judge);
+    // finish() exits the process without running destructors: remove the scratch store now
+    drop(arena);
 
     if let Some((case, msg)) = failure {
         // shrink: fewer recover calls, no reopen, shorter schedule, fewer/shorter threads
